@@ -1,17 +1,27 @@
 PROP = dict(
     module="M3d.Props.C07",
     corr=dict(quick=400, thorough=3000),
-    gen=[],
+    gen=["Kernels"],
+    tie_modules=["M3d.Lemmas.KernelsTieCollide"],
     corr_theorems=(
         "obs2/obs3 lines print the verdict of M3d.Col.obsVerdict (the Boolean obsOk; M3d.C07.contract_obs: it is implied by "
         "the contract) on the observation of the real collider; rectx/rectb = rectCollider (M3d.C07.rect_hits), trix/trib = "
         "triCollider + triRay (triangle_hit_iff), seg2x/seg2b = seg2Collider (segment2d_hit_iff), sphereb (3-D Sphere and 2-D "
         "Circle) = sphereCollider (sphere_hits_on_surface, sphere_normal_unit_outward), planeb/circleb = castPlane/castCircle "
-        "(plane_circle_hit), cylb = cylCollider (plane_circle_hit + first_is_min), capb = capsuleCollider "
-        "(capsule_phantom_contract), joinx = joined with an always-admitting prefilter, i.e. brute force (joined_contract), "
-        "profx = profileCollider over joined 2-D segments (profile_contract, profile_faces_and_sides), ballx/circx = the "
-        "sqrt-free closest-point specification triBallSpec/seg2BallSpec (ball_touches_iff_triangle, ball_touches_iff_segment2d; refused with "
-        "MODEL-NE-SPEC if the faithful model triSphere/seg2Circle disagrees), segx = triSegment"
+        "(plane_circle_hit), cylb = cylCollider (cylinder_hits_on_surface, first_is_min), capb = capsuleCollider "
+        "(capsule_phantom_contract, capsule_hits_on_surface), coneb = coneCollider, the complete Cone.RayCollisions "
+        "(cone_hits_on_surface, cone_normal_perpendicular, first_is_min), joinx = joined with an always-admitting prefilter, "
+        "i.e. brute force (joined_contract), profx = profileCollider over joined 2-D segments (profile_contract, "
+        "profile_faces_and_sides), ballx/circx = the sqrt-free closest-point specification triBallSpec/seg2BallSpec "
+        "(ball_touches_iff_triangle, ball_touches_iff_segment2d_spec; refused with MODEL-NE-SPEC if the faithful model "
+        "triSphere/seg2Circle disagrees), segx = triSegment, tballx/tcircx = the ball test of the IMAGE triangles/segments "
+        "(transformed_ball_touches_iff_triangle, transformed_circle_touches_iff_segment2d, joined_ball_any; refused with "
+        "MODEL-NE-SPEC if the faithful model tSphere/tCircle of transformedCollider.SphereCollision/CircleCollision - centre "
+        "through t.Inverse(), radius through t.Inverse().ApplyDistance - disagrees; transformed_ball_query, "
+        "transformed_ball_touches_iff), tsphx/tcirc2x = the sqrt-free sphere/ball test of the image sphere/circle "
+        "(transformed_ball_touches_iff_sphere, transformed_circle_touches_iff_circle2d, ball_touches_iff_sphere), containx = "
+        "colliderContains over the brute-force joined collider (parity_inside_closed_mesh, parity_direction_independent: for "
+        "a closed mesh that parity is the parity along every general-position ray)"
     ),
     rule=(
         "every case is one ray (or ball/segment/box) against one collider built by the real constructors. obs: all collider "
@@ -21,46 +31,67 @@ PROP = dict(
         "Rect Capsule Segment Triangle mesh Joined Transform), origins in/around/far/on-surface/centre, directions axis-aligned/"
         "planar/random/aimed, all scaled to non-unit length. exact kinds: dyadic data, axis-aligned power-of-two triangles/"
         "segments/boxes, directions with components 0 or +-2^k (non-unit, not axis-aligned), origins aimed at lattice points "
-        "inside / on edges and vertices / outside, also from behind. bits kinds: arbitrary doubles incl. parallel and "
-        "through-vertex rays. distinct = distinct operation lines; #stat counters give hits per kind, ray classes, parity "
-        "inside counts, soup query outcomes"
+        "inside / on edges and vertices / outside, also from behind. transformed ball kinds (tballx tsphx tcircx tcirc2x): "
+        "dyadic Translate, Scale +-2^k with k in -2..2 (mostly non-unit, negative too), all signed permutation matrices as "
+        "orthoMatrix transforms, JoinedTransforms of up to three of them (nested), wrapped Triangle / mesh colliders / Sphere / "
+        "2-D Segment / mesh / Circle; radii next to the true distance d of the centre from the image surface, next to d/f, "
+        "d*f, d/f^2, d*f^2 (f the distance factor) and arbitrary, exactly tangent balls only where every operation is exact; "
+        "the counter between-r-and-r*f^2 gives the cases whose answer changes when the radius is converted with the wrong "
+        "direction of ApplyDistance. containx: ColliderContains with margins on dyadic box meshes, pairs of boxes, soups, "
+        "origins on a 1/16-offset grid. bits kinds: arbitrary doubles incl. parallel and through-vertex rays, cones incl. "
+        "axis-aligned ones, rays through the apex and along the axis. distinct = distinct operation lines; #stat counters give "
+        "hits per kind, ray classes, radius classes, parity inside counts, soup query outcomes"
     ),
     trusted=[
+        "regenerated, not hand-written: lean/M3d/Gen/Kernels.lean (Go->Lean translator harness/hlib/go2lean, run on the current "
+        "source on every check); M3d.KernelsTie.Collide.* re-prove against it that segmentEntersSphere and the 2-D segment collider "
+        "(Segment.rayCollision with its near-parallel test and in-place inverse, Segment.Normal, Segment.CircleCollision) are the "
+        "model functions segEntersSphere, seg2Ray, seg2Normal, seg2Circle of the hit and ball-touch theorems",
         "modelled, not verified: float64 arithmetic as exact field arithmetic in the theorems; the bits kinds tie the same generic definitions to the Go code operation by operation on arbitrary doubles",
-        "math.Sqrt is the parameter sqrtF (hypothesis SqrtOK: non-negative and squares back); the 1e-8 of the parallel tests is the parameter eps; the near-parallel rejection appears as an explicit condition in triangle_hit_iff / segment2d_hit_iff / plane_circle_hit",
-        "Cone side and Torus intersections go through numerical.Polynomial.IterRealRoots: not modelled; only the contract (obs) and tolerance residuals labelled validation: are checked for the hit parameters (the cone normal formula itself is proved perpendicular: cone_normal_perpendicular)",
+        "math.Sqrt is the parameter sqrtF (hypothesis SqrtOK: non-negative and squares back); the 1e-8 of the parallel tests is the parameter eps, the 1e-5 of safeNormal the parameter tol; the near-parallel rejection appears as an explicit condition in triangle_hit_iff / segment2d_hit_iff / plane_circle_hit and in the hypotheses of the parity theorems",
+        "Torus intersections go through the quartic branch of numerical.Polynomial.IterRealRoots: not modelled; only the contract (obs) and tolerance residuals labelled validation: are checked for the hit parameters. (Cone.RayCollisions is modelled completely: its side polynomial has degree <= 2.)",
         "SolidCollider is approximate by documentation: contract only",
-        "parity: proved for the convex cells Rect and Sphere only (parity_inside_box_partial, parity_inside_sphere_partial); for meshes, tori, cones, capsules, cylinders, profiles and transformed shapes it is checked on the real code against winding numbers / analytic containment (PropFail c07:parity-vs-contains)",
-        "ball queries: theorems for 2-D Segment.CircleCollision (the Go method itself), for |SDF|<=r on Sphere/Circle, and for the sqrt-free vertex/edge/face specification triBallSpec of Triangle.SphereCollision (= some point of the triangle within r, closest-point lemma proved); the Go method Triangle.SphereCollision (square roots, rayCollision along the normal) is tied to triBallSpec by exact-mode correspondence (ballx refuses MODEL-NE-SPEC), not by theorem; other primitives' |SDF|<=r rely on C06",
-        "bounding-box prefilters of JoinedCollider are sound by C08; joined_contract holds whatever the prefilter answers",
+        "parity: theorems for Rect, Sphere, every convex solid given by half-spaces, closed convex meshes, and - direction independence and agreement with ColliderContains - arbitrary closed triangle meshes and closed 2-D polygon systems, all for rays in general position stated as explicit hypotheses; that ColliderContains agrees with a geometric inside (winding number) and parity for tori, cones, capsules, cylinders, profiles and transformed shapes are checked on the real code (PropFail c07:parity-vs-contains, c07:collider-contains)",
+        "ball queries: theorems for 2-D Segment.CircleCollision (the Go method itself), Sphere/Circle (|SDF| <= r, the Go method), the sqrt-free vertex/edge/face specification triBallSpec of Triangle.SphereCollision (= some point of the triangle within r, closest-point lemma proved) and for all of these behind a transformedCollider (= the image shape meets the ball); the Go method Triangle.SphereCollision (square roots, rayCollision along the normal) is tied to triBallSpec by exact-mode correspondence (ballx/tballx refuse MODEL-NE-SPEC), not by theorem; other primitives' |SDF| <= r rely on C06; exactly tangent balls are generated only where every float operation is exact",
+        "the transform model (Translate, Scale, orthoMatrix transforms, JoinedTransform: Apply, Inverse, ApplyDistance) and its lemmas are C05's (M3d/Model/Transform*.lean, M3d/Lemmas/Transform*.lean), tied to transform.go by C05's correspondence and here by the t...x kinds",
+        "bounding-box prefilters of JoinedCollider are sound by C08; joined_contract / joined_ball_any hold whatever the prefilter answers",
         "sort.Slice in Capsule.RayCollisions is modelled as an insertion sort; only the first and last element are used (cases with tied parameters are skipped in capb)",
-        "residual / outward-normal / parity checks compare floats with a tolerance (1e-7 relative; 1e-5 for root-finder shapes): they are PropFail predicates on the implementation, not what the theorems rest on",
+        "residual / outward-normal / parity checks compare floats with a tolerance (1e-7 relative; 1e-5 for root-finder shapes), the transformed-ball PropFail sites keep radii 5 % away from the true distance: they are PropFail predicates on the implementation, not what the theorems rest on",
+        "known finding c07:hit-not-on-surface/profile/degenerate-2d-projection: a ProfileCollider reports a face hit outside the outline when the projected ray grazes a vertex of the outline (see known_findings.jsonl, notes/C07.md)",
     ],
     assumptions=[
-        "non-zero ray directions, non-degenerate shapes (positive radii, P1 != P2, triangles of non-zero area), no NaN/Inf",
-        "general position for parity: origin not on the surface, no two hits coinciding",
+        "non-zero ray directions, non-degenerate shapes (positive radii, P1 != P2, Tip != Base, triangles of non-zero area), no NaN/Inf",
+        "general position for parity: origin not on the surface, no two hits coinciding, rays not parallel to faces; for the direction independence on closed meshes: no vertex in the plane of the two rays, edges cross that plane off the two lines through the origin",
         "open-ball convention for Triangle/Segment SphereCollision (strict <), closed ball for |SDF| <= r primitives, as in the code",
+        "transforms accepted by TransformCollider: translations, uniform scales with a non-zero factor, orthogonal matrices, joins of these",
     ],
     level_text=(
         "Machine-checked (Lean 4, every linear ordered field): the collider contract (count = callbacks = count without "
         "callback, parameters >= 0, first = minimum, exists iff count != 0) for JoinedCollider/joinedMultiCollider given "
         "the children (callbacks = concatenation, first = min over children), profileCollider (vertical/flat/general cases, "
-        "side filter = z-range, faces on the planes), Capsule's phantom removal (reported = min/max of candidates, phantoms "
-        "lie inside), transformedCollider, and every min-callback FirstRayCollision; exact hits: Sphere/Circle quadratic "
-        "(roots on the surface, complete, ordered, >= 0 filter, none when disc < 0, unit outward normal), Rect slab method "
-        "(the reported parameters are entry/exit of the exact parameter interval of the box), Triangle Moller-Trumbore "
-        "(hit iff unique barycentric solution in range with t >= 0, non-unit directions, exactly-parallel rays report "
-        "nothing), 2-D Segment, castPlane/castCircle, the repaired Cone normal is perpendicular to the cone; parity for "
-        "the convex cells Rect and Sphere; ball queries: 2-D segments, |SDF| <= r on spheres, and the vertex/edge/face analysis of "
-        "Triangle.SphereCollision = squared distance to the triangle < r^2 (closest-point lemma proved). The generic models "
-        "are tied to /repo on every run: bit-for-bit at Float on arbitrary doubles (Sphere, Circle, Rect, Triangle, "
-        "Segment, castPlane, castCircle, Cylinder, Capsule) and exactly at Rat on dyadic data (Rect, Triangle, Segment, "
-        "triangle soups through the real mesh colliders, ProfileCollider, ball/segment queries); the contract predicate "
+        "side filter = z-range, faces on the planes), Capsule's phantom removal, transformedCollider, and every min-callback "
+        "FirstRayCollision; exact hits: Sphere/Circle quadratic (roots on the surface, complete, ordered, >= 0 filter, unit "
+        "outward normal), Rect slab method, Triangle Moller-Trumbore (hit iff unique barycentric solution in range with "
+        "t >= 0), 2-D Segment, castPlane/castCircle, and - every reported collision has t >= 0, lies on the surface and carries "
+        "the unit outward normal - Cylinder (side + discs, side complete), Capsule (outer half spheres + side) and the complete "
+        "Cone.RayCollisions (side polynomial, linear/quadratic root branch, safeNormal, base disc); parity: Rect, Sphere, every "
+        "convex solid given as an intersection of half-spaces, closed convex meshes on the model's hit list, and for arbitrary "
+        "closed triangle meshes (and closed 2-D polygon systems) the crossing parity is independent of the ray direction "
+        "(crossing-number argument) and equals ColliderContains; ball queries: 2-D segments, spheres, the vertex/edge/face analysis of Triangle.SphereCollision = "
+        "squared distance to the triangle < r^2, and for transformed colliders (any similarity: translation, scale of either "
+        "sign, orthogonal matrix, joins) the query equals the wrapped query at the inverse-mapped centre with the radius "
+        "divided by the distance factor, i.e. it answers touching iff the IMAGE surface meets the ball (generic surfaces, "
+        "triangles, segments, spheres, circles). The generic models are tied to /repo on every run: bit-for-bit at Float on "
+        "arbitrary doubles (Sphere, Circle, Rect, Triangle, Segment, castPlane, castCircle, Cylinder, Capsule, Cone) and "
+        "exactly at Rat on dyadic data (Rect, Triangle, Segment, triangle soups through the real mesh colliders, "
+        "ProfileCollider, ball/segment queries, ball/circle queries against TransformCollider over triangles, meshes, "
+        "spheres, segments, circles with non-unit and negative scale factors, ColliderContains); the contract predicate "
         "itself is evaluated on observations of every collider kind."
     ),
     level_note=(
-        "Proved about lean/M3d/Model/Collide.lean over ordered fields, not floats. Cone/Torus root finding and SolidCollider "
-        "are only covered by the contract and tolerance residuals; parity beyond convex cells is tied by independent "
-        "winding-number / analytic containment computation in the harness, not by theorem."
+        "Proved about lean/M3d/Model/Collide*.lean over ordered fields, not floats. Torus root finding and SolidCollider "
+        "are only covered by the contract and tolerance residuals; parity for tori, cones, capsules, cylinders, profiles and "
+        "transformed shapes, and the agreement of ColliderContains with the winding number, are tied by independent "
+        "computation in the harness, not by theorem; general position is an explicit hypothesis of the parity theorems."
     ),
 )
